@@ -1342,8 +1342,20 @@ lx_token_harness! {
         assert!(cp.is_some(), "C01/C09: the marker takes a checkpoint");
         let cp = cp.unwrap();
         assert!(cp.cursor.remaining_len() == lx.cursor.remaining_len() && cp.cursor.char_offset() == lx.cursor.char_offset(), "C02/C03: checkpoint is the cursor snapshot");
-        assert!(cp.mode_stack_len == lx.mode_stack.len() && cp.errors_len == lx.errors.len(), "C09: checkpoint records the stack depth and the error count");
+        assert!(cp.mode_stack_len == lx.mode_stack.len(), "C09: checkpoint records the stack depth");
         assert!(super::buffer::verif::cp_counts(&cp.buffer_checkpoint) == (shadow::line_n(), shadow::tok_n(), shadow::lit_n()), "C02/C04/C07: checkpoint records the buffer lengths");
+        // behavioural form of "errors are part of the checkpoint" (independent of how the checkpoint stores it):
+        // an error reported while lexing speculatively is discarded by the rollback, every earlier one - including
+        // one reported at the very offset of the checkpoint - survives it
+        let errs_at_cp = lx.errors.len();
+        let speculative: bool = kani::any();
+        if speculative {
+            lx.sh_emit_error(ErrorKind::MissingExpectedAssign);
+        }
+        lx.rollback();
+        assert!(lx.errors.len() == errs_at_cp, "C09: rollback discards exactly the errors recorded since the checkpoint");
+        assert!(lx.checkpoint.is_none() && lx.cur_byte_offset().get() as usize == t.byte_at(pre.pi), "C01/C02: rollback returns to the checkpoint and releases it");
+        kani::cover!(speculative && errs_at_cp == 1, "an error before the checkpoint at the same offset and one after it");
         std::mem::forget(lx);
     }
 }
